@@ -38,7 +38,7 @@ func (c *IfPresent) Prohibits(a macaroon.Access) error {
 		ifBranch bool
 	)
 
-	for _, cc := range c.Ifs.Caveats {
+	for _, cc := range c.Unwrap().Caveats {
 		// set err if any of the `Ifs` returns nil or a non-errResourceUnspecified error
 		if cErr := cc.Prohibits(ra); !errors.Is(cErr, ErrResourceUnspecified) {
 			err = merr.Append(err, cErr)
@@ -54,5 +54,9 @@ func (c *IfPresent) Prohibits(a macaroon.Access) error {
 }
 
 func (c *IfPresent) Unwrap() *macaroon.CaveatSet {
+	if c.Ifs == nil {
+		// a nil Ifs (decoded from a msgpack nil or JSON null) is an empty set
+		return macaroon.NewCaveatSet()
+	}
 	return c.Ifs
 }
